@@ -48,6 +48,7 @@ type mBinding struct {
 	hook    *mHook
 	name    string
 	kube    bool
+	extra   string // more (legal) keys of the binding, none of which has a say in its queue
 	crontab string
 	queueNo int // 0 = no `queue` key, k = the k-th queue name of the case
 	qname   string // the `queue` value as written ("" = no key)
@@ -106,6 +107,7 @@ func (h *mHook) configText() string {
 				if x.queueNo > 0 {
 					fmt.Fprintf(&b, "  queue: %q\n", x.qname)
 				}
+				b.WriteString(x.extra)
 			}
 		}
 	}
@@ -246,6 +248,7 @@ func c03OperatorMulti(r *Run, c *Case, rng *Rng) {
 			b := &mBinding{hook: h, name: "k1", kube: true}
 			if !h.v0 {
 				b.queueNo = rng.Range(0, nq)
+				b.extra, _ = c03KubeExtras(rng, true, false)
 			}
 			h.bindings = append(h.bindings, b)
 		}
@@ -765,6 +768,7 @@ func c03LoaderGen(c *Case, rng *Rng) {
 		name, key, queue string // name as written ("" = no `name` key); key = what the oracle calls it
 		kube             bool
 		minute           int
+		extra, wfs       string // other keys of the binding (v1); wfs = the waitForSynchronization value written ("-" = none)
 	}
 	var bs []bnd
 	// how the bindings are named: 0 = every binding its own name, 1 = none has a name (the loader calls
@@ -780,10 +784,18 @@ func c03LoaderGen(c *Case, rng *Rng) {
 		return fmt.Sprintf("%s%d", prefix, i)
 	}
 	for j := rng.Range(0, 3); j > 0; j-- {
-		bs = append(bs, bnd{name: nameOf("s", len(bs)), queue: c03QueueSetting(rng), minute: len(bs)})
+		x := bnd{name: nameOf("s", len(bs)), queue: c03QueueSetting(rng), minute: len(bs)}
+		if !v0 {
+			x.extra = c03ScheduleExtras(rng, naming == 0)
+		}
+		bs = append(bs, x)
 	}
 	for j := rng.Range(0, 3); j > 0; j-- {
-		bs = append(bs, bnd{name: nameOf("k", len(bs)), queue: c03QueueSetting(rng), kube: true})
+		x := bnd{name: nameOf("k", len(bs)), queue: c03QueueSetting(rng), kube: true, wfs: "-"}
+		if !v0 {
+			x.extra, x.wfs = c03KubeExtras(rng, false, naming == 0)
+		}
+		bs = append(bs, x)
 	}
 	if len(bs) == 0 {
 		bs = append(bs, bnd{name: "k0", kube: true})
@@ -822,6 +834,7 @@ func c03LoaderGen(c *Case, rng *Rng) {
 			if !v0 && x.queue != "" {
 				fmt.Fprintf(&b, "  queue: %q\n", x.queue)
 			}
+			b.WriteString(x.extra)
 		}
 	}
 	// a binding is identified by its name and (schedule bindings, whose names may collide) its crontab
@@ -867,6 +880,32 @@ func c03LoaderGen(c *Case, rng *Rng) {
 	sort.Strings(got)
 	c.Op("loadconfig", "ok")
 	c.Oracle("queuenames cfg=" + joinStrs(cfgL) + " got=" + joinStrs(got))
+	// the converter of a version-1 kubernetes binding against its model (Routing.convKube): queue and
+	// waitForSynchronization as functions of the two keys as written (the loader keeps the bindings' order)
+	if !v0 {
+		var kb []bnd
+		for _, x := range bs {
+			if x.kube {
+				kb = append(kb, x)
+			}
+		}
+		if len(kb) == len(cfg.OnKubernetesEvents) {
+			for i, x := range kb {
+				q := showQueueName(x.queue)
+				if x.queue == "" {
+					q = "-"
+				}
+				k := cfg.OnKubernetesEvents[i]
+				c.Op(fmt.Sprintf("convkube q=%s wfs=%s", q, x.wfs), fmt.Sprintf("%s/%v", showQueueName(k.Queue), k.WaitForSynchronization))
+				if x.wfs == "false" {
+					c.Note("loader:waitForSynchronization-false")
+					if x.queue == "" {
+						c.Note("loader:waitForSynchronization-false-without-queue")
+					}
+				}
+			}
+		}
+	}
 	c.Nontrivial = true
 	c.Note("kind:loader-" + ver)
 	c.Note(fmt.Sprintf("loader:naming-%d", naming))
@@ -876,6 +915,51 @@ func c03LoaderGen(c *Case, rng *Rng) {
 			break
 		}
 	}
+}
+
+// c03KubeExtras: further keys of a version-1 kubernetes binding, each absent most of the time: none of
+// them has a say in the queue of the binding's tasks. wfs = the waitForSynchronization value written
+// ("-" = none). whole = the binding is used in a whole-operator case (no Synchronization run, objects
+// of the fake cluster are not selected by labels). group = the bindings of the hook have names of their
+// own (the loader refuses a group whose bindings share a name).
+func c03KubeExtras(rng *Rng, whole, group bool) (text, wfs string) {
+	var b strings.Builder
+	wfs = "-"
+	if rng.Chance(45) {
+		wfs = PickOne(rng, []string{"false", "false", "true"})
+		fmt.Fprintf(&b, "  waitForSynchronization: %s\n", wfs)
+	}
+	if !whole && rng.Chance(25) {
+		fmt.Fprintf(&b, "  executeHookOnSynchronization: %s\n", PickOne(rng, []string{"false", "true"}))
+	}
+	if rng.Chance(25) {
+		fmt.Fprintf(&b, "  keepFullObjectsInMemory: %s\n", PickOne(rng, []string{"false", "true"}))
+	}
+	if rng.Chance(20) {
+		fmt.Fprintf(&b, "  allowFailure: %s\n", PickOne(rng, []string{"false", "true"}))
+	}
+	if !whole && group && rng.Chance(20) {
+		fmt.Fprintf(&b, "  group: %s\n", PickOne(rng, []string{"g1", "main", "pods"}))
+	}
+	if !whole && rng.Chance(15) {
+		b.WriteString("  jqFilter: \".metadata.labels\"\n")
+	}
+	if !whole && rng.Chance(15) {
+		b.WriteString("  namespace:\n    nameSelector:\n      matchNames: [\"default\"]\n")
+	}
+	return b.String(), wfs
+}
+
+// c03ScheduleExtras: further keys of a version-1 schedule binding (none of them names a queue).
+func c03ScheduleExtras(rng *Rng, group bool) string {
+	var b strings.Builder
+	if rng.Chance(20) {
+		fmt.Fprintf(&b, "  allowFailure: %s\n", PickOne(rng, []string{"false", "true"}))
+	}
+	if group && rng.Chance(20) {
+		fmt.Fprintf(&b, "  group: %s\n", PickOne(rng, []string{"g1", "main", "pods"}))
+	}
+	return b.String()
 }
 
 // c03QueueSetting: the value of a `queue` key: absent, ordinary names, `main` itself, and names that look
@@ -965,6 +1049,10 @@ func c03Controller(c *Case, rng *Rng) {
 			}
 			if b.queue != "" {
 				fmt.Fprintf(&y, "  queue: %s\n", b.queue)
+			}
+			if !v0 {
+				x, _ := c03KubeExtras(rng, false, naming == 0)
+				y.WriteString(x)
 			}
 		}
 	}
